@@ -19,7 +19,9 @@ STRUCT = ["flags0_plain", "flags0_plain_keepdigest", "flags4_plain", "auth_only_
           # the (by nature unauthenticated) discovery reply of a fresh client carries an error-status: it is not the answer to the operation
           "disco_report_err2", "disco_report_err5",
           # a foreign user name (signed with the foreign user's key / unsigned) around a PDU with an error-status
-          "foreign_user_err2", "foreign_user_plain_err2"]
+          "foreign_user_err2", "foreign_user_plain_err2",
+          # unauthenticated plaintext carrying another PDU type than Response / Report (the caller never checks the type of what comes back)
+          "flags0_plain_trap", "flags0_plain_inform", "flags0_plain_getreq", "flags0_plain_setreq"]
 
 
 def result_repr(op, r):
@@ -96,6 +98,9 @@ def forge(kind, ag, u, xu, req, authentic: bytes, bit=None):
         return msg(0, b"", scoped(pdu(REPORT, es=2, ei=1))), S(auth=False, priv=False, form="plain", ekey="-", mac="empty", ptype="Report", es="noSuchName")
     if kind == "auth_only_plain_err2":
         return msg(1, a["auth"], scoped(pdu(es=2, ei=1))), S(priv=False, form="plain", ekey="-", mac="stale", es="noSuchName")
+    if kind in ("flags0_plain_trap", "flags0_plain_inform", "flags0_plain_getreq", "flags0_plain_setreq"):
+        pt = {"trap": TRAP2, "inform": 0xa6, "getreq": GET, "setreq": SET}[kind.rsplit("_", 1)[1]]
+        return msg(0, b"", scoped(pdu(pt))), S(auth=False, priv=False, form="plain", ekey="-", mac="empty", ptype="Other")
     if kind == "flags4_plain":
         return msg(4, b"", scoped(pdu())), S(auth=False, priv=False, form="plain", ekey="-", mac="empty")
     if kind == "auth_only_plain":          # privacy credentials: keep auth flag, drop priv flag, plaintext, stale MAC
